@@ -1,1 +1,41 @@
 //! Verification facade (cfg-gated): session family.  See `crate::verif`.
+//!
+//! Forwarders that run a `HeaderSession` / the header range requests of `P2p` on the
+//! mocked `P2p` of [`VP2p`], whose command receiver is held by the harness.  The returned
+//! futures own their `P2p` handle, so they can be spawned as tasks.
+
+use std::future::Future;
+use std::ops::RangeInclusive;
+
+use celestia_types::ExtendedHeader;
+
+use crate::p2p::P2pError;
+use crate::verif::mock_p2p::VP2p;
+
+/// `HeaderSession::new(range, cmd_tx).run()`.
+pub fn run_header_session(
+    p2p: &VP2p,
+    range: RangeInclusive<u64>,
+) -> impl Future<Output = Result<Vec<ExtendedHeader>, P2pError>> + Send + 'static {
+    let p2p = p2p.p2p();
+    async move { p2p.verif_run_header_session(range).await }
+}
+
+/// `P2p::get_verified_headers_range(from, amount)`.
+pub fn get_verified_headers_range(
+    p2p: &VP2p,
+    from: ExtendedHeader,
+    amount: u64,
+) -> impl Future<Output = Result<Vec<ExtendedHeader>, P2pError>> + Send + 'static {
+    let p2p = p2p.p2p();
+    async move { p2p.get_verified_headers_range(&from, amount).await }
+}
+
+/// `P2p::get_unverified_header_range(range)`.
+pub fn get_unverified_header_range(
+    p2p: &VP2p,
+    range: RangeInclusive<u64>,
+) -> impl Future<Output = Result<Vec<ExtendedHeader>, P2pError>> + Send + 'static {
+    let p2p = p2p.p2p();
+    async move { p2p.get_unverified_header_range(range).await }
+}
